@@ -331,6 +331,57 @@ def soak_histories():
               ["delete_dims", arr("sig")]]
     h += [["append_dim", arr("sig"), "set", ["a", "b"]], ["append_dim", arr("sig"), "sampled", 2, None, None]]
     out.append(h)
+    # a parent (block / source / section) with a child of the same name is deleted as a whole and built again, then
+    # only the CHILD is deleted; an unrelated deletion comes first; no reopen
+    h = []
+    SS = ["sections", "sec", "sections", "sec"]
+    NB = ["blocks", "n1"]
+    for cyc in range(2):
+        h += [["create", [], "blocks", "n1"],
+              ["create", NB, "data_arrays", "n1", [[1, 2], [3, 4]], "int16"],
+              ["create", NB, "sources", "n1"],
+              ["create", NB + ["sources", "n1"], "sources", "n1"],
+              ["create", S1, "sources", "n1"],
+              ["create", S1 + ["sources", "n1"], "sources", "n1"],
+              ["create", SS, "sections", "n1"],
+              ["create", SS + ["sections", "n1"], "sections", "n1"],
+              ["create", B, "data_arrays", "n2", [[1, 2], [3, 4]], "int16"],
+              ["delete", B, "data_arrays", "name", "n2"],                      # unrelated
+              ["delete", [], "blocks", "name", "n1"],
+              ["delete", S1, "sources", "name", "n1"],
+              ["delete", SS, "sections", "name", "n1"],
+              ["create", [], "blocks", "n1"],
+              ["create", NB, "data_arrays", "n1", [[1, 2], [3, 4]], "int16"],
+              ["create", NB, "sources", "n1"],
+              ["create", NB + ["sources", "n1"], "sources", "n1"],
+              ["create", S1, "sources", "n1"],
+              ["create", S1 + ["sources", "n1"], "sources", "n1"],
+              ["create", SS, "sections", "n1"],
+              ["create", SS + ["sections", "n1"], "sections", "n1"],
+              ["link", G, "sources", S1 + ["sources", "n1", "sources", "n1"]],
+              ["set_meta", arr("sig"), SS + ["sections", "n1", "sections", "n1"]],
+              ["delete", S1 + ["sources", "n1"], "sources", "name", "n1"],     # the children only
+              ["delete", SS + ["sections", "n1"], "sections", "name", "n1"],
+              ["delete", NB, "data_arrays", "name", "n1"],
+              ["delete", NB + ["sources", "n1"], "sources", "name", "n1"],
+              ["delete", [], "blocks", "name", "n1"],
+              ["delete", S1, "sources", "name", "n1"],
+              ["delete", SS, "sections", "name", "n1"]]
+    out.append(h)
+    # member lists emptied and refilled in another order, addressed by index each time; no reopen
+    h = [["create", B, "data_arrays", "n%d" % i, [[1, 2], [3, 4]], "int16"] for i in (1, 2, 3)]
+    h += [["unlink", G, "data_arrays", "idx", 0]]
+    for perm in ((1, 2, 3), (2, 1, 3), (1, 2, 3), (3, 2, 1), (2, 3, 1)):
+        h += [["link", G, "data_arrays", arr("n%d" % i)] for i in perm]
+        h += [["link", T, "references", arr("n%d" % i)] for i in perm]
+        h += [["lookup", G, "data_arrays", arr("n%d" % perm[1])]]
+        h += [["unlink", G, "data_arrays", "idx", 0], ["unlink", G, "data_arrays", "idx", 1], ["unlink", G, "data_arrays", "idx", 0]]
+        h += [["unlink", T, "references", "idx", 1]] * 3                 # position 0 is "sig"
+    # the same with entities: the sources below one source
+    for perm in ((1, 2, 3), (2, 1, 3), (1, 2, 3), (3, 1, 2)):
+        h += [["create", S1 + ["sources", "src"], "sources", "n%d" % i] for i in perm]
+        h += [["delete", S1 + ["sources", "src"], "sources", "idx", 0]] * 3
+    out.append(h)
     return out
 
 
